@@ -30,7 +30,7 @@ def main():
                 first = short(v["first"][0], 70)
                 break
         needs = m.get("needs_to_manifest") or m.get("needs") or ""
-        print(f"| {d} | {m.get('property')} | {short(m.get('summary', ''), 140)} — *{short(needs, 110)}* | "
+        print(f"| {d}{' (r2)' if m.get('round') == 2 else ''} | {m.get('property')} | {short(m.get('summary', ''), 140)} — *{short(needs, 110)}* | "
               f"{lc.get('demo_clean_rc')}/{lc.get('demo_patched_rc')} | {short(lc.get('suite', ''), 12)} | {caught} | {first} |")
         if m.get("lead_note"):
             print(f"| | | ↳ {short(m['lead_note'], 400)} | | | | |")
